@@ -578,6 +578,7 @@ fn site_idx(site: Site) -> usize {
         Site::AlphaBetaEntry => 0,
         Site::QuiescenceEntry => 1,
         Site::RootAfterChild => 2,
+        Site::AlphaBetaAfterChild => 0,
     }
 }
 
@@ -1025,6 +1026,8 @@ impl Kernel {
                     return None;
                 }
                 let to = others[st.sched.usize_below(others.len())];
+                // Bounded: an unbounded hold would be an unfair scheduler (starvation is
+                // not something a real OS does to the input thread).
                 let hold = match st.sched.below(8) {
                     0 => 0,
                     1 => 1,
@@ -1032,7 +1035,8 @@ impl Kernel {
                     3 => 10,
                     4 => 100,
                     5 => 1000,
-                    _ => u32::MAX,
+                    6 => 5000,
+                    _ => 20_000,
                 };
                 st.fired.push(Preempt {
                     tid: me as u8,
@@ -1084,9 +1088,7 @@ impl Kernel {
             self.note_switch(st, me, to, label, true);
             to
         } else if st.hold > 0 {
-            if st.hold != u32::MAX {
-                st.hold -= 1;
-            }
+            st.hold -= 1;
             me
         } else {
             let t = Self::lowest_runnable(st).unwrap_or(me);
@@ -1293,6 +1295,9 @@ impl Sim for Kernel {
             Label::IsFinished => L::IsFinished,
             Label::Join => L::Join,
         };
+        self.yield_now(l);
+        // Logged after the scheduling point: nothing can run between here and the store
+        // itself, so the event marks the instant the store takes effect.
         if let Label::FlagStore(v) = label {
             let me = TID.with(Cell::get);
             if me != NONE {
@@ -1302,7 +1307,6 @@ impl Sim for Kernel {
                 }
             }
         }
-        self.yield_now(l);
     }
 
     fn spawn(&self, f: Box<dyn FnOnce() + Send + 'static>) -> usize {
@@ -1470,7 +1474,7 @@ impl Sim for Kernel {
         let mut g = self.lock();
         if let Some(st) = g.as_mut() {
             let si = match site {
-                Site::AlphaBetaEntry => 0,
+                Site::AlphaBetaEntry | Site::AlphaBetaAfterChild => 0,
                 Site::QuiescenceEntry => 1,
                 Site::RootAfterChild => 2,
                 _ => 3,
